@@ -2,6 +2,7 @@ import DynasmVerif.Model.Machine
 import DynasmVerif.Proofs.Patch
 import DynasmVerif.Props.C05
 import DynasmVerif.Props.C01
+import DynasmVerif.Proofs.SessionReg
 
 /-!
 # C12 — address-dependent references stay correct when the buffer moves or is altered
@@ -303,9 +304,73 @@ theorem add_spec (m : Managed) (p : PatchLoc) :
   · right; exact ⟨h1, by simpa using h2⟩
   · left; exact h
 
+/-! ## alter sessions: forget what is overwritten, track what is written (whole sessions, any outcome)
+
+`SessionReg.session_refines_spec` relates the code's lazy bookkeeping (`old_managed` / `new_managed`, purged when the cursor is moved
+and when the session ends — also when it ends in an error) to the specification "a byte written over the start of a tracked field
+forgets it at once, a field written is tracked at once". The three sentences of the property are read off the specification. -/
+
+open SessionReg in
+/-- the registry an alter session leaves behind is the specification's, for every sequence of goto / emit / bare-reference steps and
+every outcome of the session; `madd` are the label references `encode_relocs` patched (all of them on success, a prefix on failure) -/
+theorem session_registry_is_spec (m : Managed) (ops : List ROp) (madd : List PatchLoc)
+    (hf : FieldsInSpan ⟨m, [], 0, 0⟩ ops) :
+    ∀ k, get? (rend (ops.foldl rstep ⟨m, [], 0, 0⟩) madd) k = specEnd (ops.foldl specStep ⟨get? m, 0⟩) madd k :=
+  session_refines_spec ops _ _ madd (rel_init m) hf
+
+
+open SessionReg in
+/-- **"Once such a field has been overwritten through an alter session it is no longer touched by later moves"**: a field start `k`
+covered by an emission of the session, and not declared again afterwards, is not in the registry the session leaves — however
+the session goes on and whether or not it succeeds. (The adjust-on-move pass iterates exactly this registry.) -/
+theorem overwritten_field_is_forgotten (m : Managed) (pre post : List ROp) (n k : Nat) (madd : List PatchLoc)
+    (hf : FieldsInSpan ⟨m, [], 0, 0⟩ (pre ++ .emit n :: post))
+    (hcov : (pre.foldl specStep ⟨get? m, 0⟩).cursor ≤ k ∧ k < (pre.foldl specStep ⟨get? m, 0⟩).cursor + n)
+    (hpost : NoDecl k post) (hmadd : ∀ p ∈ madd, managedKey p ≠ k) :
+    get? (rend ((pre ++ .emit n :: post).foldl rstep ⟨m, [], 0, 0⟩) madd) k = none := by
+  rw [session_registry_is_spec m _ madd hf k, specEnd_other _ _ _ hmadd, List.foldl_append, List.foldl_cons]
+  apply noDecl_stays_none _ _ _ hpost
+  simp [specStep, hcov]
+
+open SessionReg in
+/-- **"fields written by the session itself are tracked from then on"**: a field the session declares, and does not write over or
+declare again afterwards, is in the registry the session leaves -/
+theorem written_field_is_tracked (m : Managed) (pre post : List ROp) (p : PatchLoc) (madd : List PatchLoc)
+    (hf : FieldsInSpan ⟨m, [], 0, 0⟩ (pre ++ .bare p :: post))
+    (hpost : NoTouch (managedKey p) (specStep (pre.foldl specStep ⟨get? m, 0⟩) (.bare p)) post)
+    (hmadd : ∀ q ∈ madd, managedKey q ≠ managedKey p) :
+    get? (rend ((pre ++ .bare p :: post).foldl rstep ⟨m, [], 0, 0⟩) madd) (managedKey p) = some p := by
+  rw [session_registry_is_spec m _ madd hf _, specEnd_other _ _ _ hmadd, List.foldl_append, List.foldl_cons,
+    noTouch_keeps _ _ _ hpost]
+  simp [specStep]
+
+open SessionReg in
+/-- fields the session does not write over stay tracked as they were (so they keep following the buffer: `adjustManaged_tracks_all`) -/
+theorem untouched_field_stays (m : Managed) (ops : List ROp) (k : Nat) (madd : List PatchLoc)
+    (hf : FieldsInSpan ⟨m, [], 0, 0⟩ ops) (h : NoTouch k ⟨get? m, 0⟩ ops) (hmadd : ∀ p ∈ madd, managedKey p ≠ k) :
+    get? (rend (ops.foldl rstep ⟨m, [], 0, 0⟩) madd) k = get? m k := by
+  rw [session_registry_is_spec m _ madd hf k, specEnd_other _ _ _ hmadd, noTouch_keeps _ _ _ h]
+
+/-- the label references `encode_relocs` patches are tracked too (the last one declared at a field start wins) -/
+theorem patched_label_reference_is_tracked (m : Managed) (ops : List SessionReg.ROp) (madd : List PatchLoc) (p : PatchLoc)
+    (hf : SessionReg.FieldsInSpan ⟨m, [], 0, 0⟩ ops) :
+    SessionReg.get? (SessionReg.rend (ops.foldl SessionReg.rstep ⟨m, [], 0, 0⟩) (madd ++ [p])) (managedKey p) = some p := by
+  rw [session_registry_is_spec m _ _ hf _]
+  simp [SessionReg.specEnd, List.foldl_append]
+
 /-! ## non-vacuity -/
 example : (({ location := 8, fieldOff := 8, refOff := 8, reloc := ⟨.p8, .absToRel⟩, targetOff := 0 } : PatchLoc).value 3 0x1000)
     = some 0x1003#64 := by decide
 example : isPlain .p8 := by simp [isPlain]
+
+
+/-- the history of the repaired defect: a session declares a field at 8, moves away, comes back and overwrites it; the hypotheses
+of `overwritten_field_is_forgotten` are met, and the model computes an empty registry -/
+def exP : PatchLoc := { location := 16, fieldOff := 8, refOff := 0, reloc := ⟨.p8, .relToAbs⟩, targetOff := 0 }
+def exOps : List SessionReg.ROp := [.goto 8, .emit 8, .bare exP, .goto 8, .emit 8]
+example : SessionReg.FieldsInSpan ⟨[], [], 0, 0⟩ exOps := by
+  simp [exOps, SessionReg.FieldsInSpan, SessionReg.rstep, exP, managedKey]
+example : SessionReg.get? (SessionReg.rend (exOps.foldl SessionReg.rstep ⟨[], [], 0, 0⟩) []) 8 = none := by
+  decide
 
 end DynasmVerif.C12
